@@ -128,6 +128,8 @@ func (x *Exec) eval1(env *Env, e *Expr) (Val, error) {
 			srt = SStr
 		case "Bytes", "Addr":
 			srt = SBytes
+		case "Real":
+			srt = SReal
 		default:
 			if ds, ok := dataSorts[e.Str]; ok {
 				srt = ds
@@ -887,6 +889,19 @@ func (x *Exec) evalCall(env *Env, e *Expr) (Val, error) {
 			return nil, err
 		}
 		return App("to_real", SReal, args[0]), nil
+	case "ufreal":
+		if len(e.Args) < 1 || e.Args[0].Kind != "str" {
+			return nil, fmt.Errorf("ufreal needs a name")
+		}
+		var as []*Term
+		for i := 1; i < len(e.Args); i++ {
+			t, err := argT(i)
+			if err != nil {
+				return nil, err
+			}
+			as = append(as, t)
+		}
+		return UF(e.Args[0].Str, SReal, as...), nil
 	case "wrap64":
 		if err := need(1); err != nil {
 			return nil, err
